@@ -3,4 +3,5 @@ Require Import ExtrOcamlBasic.
 Extraction Language OCaml.
 Extraction "model.ml" extraction_anchor exec init_state run render_initial render_batch frame_bytes marshal
   stream_ok_b defer_plan_wf descs_wf shape_ok scope_ok paths_ok group_ids_nodup root_ok
-  erase complete_root jequiv_b merge_at apply_items client_path json_eqb.
+  erase complete_root jequiv_b merge_at apply_items client_path json_eqb
+  clean_b strict_clean proj keep_all keep_layer c_stream client_result find_desc.
